@@ -5,6 +5,10 @@ produced by tools/matrix.sh)."""
 import json, os
 
 M = {
+ "C06C": ("C06", "src/move_generation.rs is_check: answer for the side to move derived from the opponent's last_move only (moved piece + line uncovered through its from-square)",
+          "a board produced by move generation whose last move is an en passant capture that uncovers a bishop/queen through the CAPTURED pawn's square"),
+ "C06D": ("C06", "src/move_generation.rs is_check_cords: pawn probes skipped when the attacking pawn would stand on the first or last rank",
+          "a placement with an enemy pawn on its own back rank diagonally in front of the king (unreachable in play, accepted by from_fen)"),
  "C01C": ("C01", "src/move_generation.rs: contact-check pre-filter (find_contact_checker) returns before the en passant section; 'behind the pawn' computed with the black offset for a white checker",
           "black to move, in check from the white pawn that just double-stepped, with a black pawn beside it: the only legal reply (en passant) is not generated"),
  "C01D": ("C01", "src/move_generation.rs: en passant generated once per position; black arm uses `if .. else if` over the two neighbouring capturers",
